@@ -1,6 +1,7 @@
 package mail
 
 import (
+	"bytes"
 	"errors"
 	"io"
 	"testing"
@@ -67,3 +68,21 @@ func TestVerifWitnessC12BoundaryErasesError(t *testing.T) {
 }
 
 var _ io.Writer = (*vFailOnce)(nil)
+
+// C12 (post[count]@writeBody, default branch at depth 0): a single-part message with a 7bit body is
+// written through a quoted-printable writer that sits directly on the destination, so its bytes are
+// not counted: WriteTo reports fewer bytes than the destination accepted.
+func TestVerifWitnessC12CountSevenBit(t *testing.T) {
+	m := NewMsg(WithEncoding(EncodingUSASCII))
+	_ = m.From("a@b.c")
+	_ = m.To("d@e.f")
+	m.SetBodyString(TypeTextPlain, "hello world, this is the body")
+	buf := &bytes.Buffer{}
+	n, err := m.WriteTo(buf)
+	if err != nil {
+		t.Fatal(err)
+	}
+	if n != int64(buf.Len()) {
+		t.Errorf("WriteTo reports %d bytes, the destination accepted %d", n, buf.Len())
+	}
+}
